@@ -187,8 +187,7 @@ def step_extensivity(ctx, rep):
                 return (Fraction(0), Fraction(0), Fraction(-1))
             return (d[0], d[1], d[0] if atom.kind == "elt" else Fraction(0))
 
-        def admitted(at, d):
-            return epdeg.admitted_guard(at, d)
+        admitted = epdeg.make_admitted_guard(A, e)
         D = degree.DegreeAnalysis(A, base3, admitted, dim=3)
         memo = {}
         bad = {}
